@@ -6,7 +6,7 @@ CONSTANTS
   NP = 2
   Names = {"a"}
   Vals = {1}
-  Acts = {"CreateGroup", "CreateObject", "AddData", "Move", "MoveSame", "AddToGroup", "RemoveViaWorkspace", "RemoveViaParent", "Copy", "Close", "Open", "AddDataFails", "DropRef", "Collect", "Purge", "LookupDead", "RemoveFromGroup", "SaveAs"}
+  Acts = {"CreateGroup", "CreateObject", "AddData", "Move", "MoveSame", "AddToGroup", "RemoveViaWorkspace", "RemoveViaParent", "RemovePair", "Copy", "Close", "Open", "AddDataFails", "DropRef", "Collect", "Purge", "LookupDead", "RemoveFromGroup", "SaveAs"}
   Deviations = {"CloseKeepsOrphans"}
   MaxDepth = 6
 CONSTRAINT DepthBound
